@@ -5,6 +5,7 @@
 use crate::util::report::{finish, Ctx, Meta, Report, ReportData};
 use std::path::PathBuf;
 
+pub mod c06;
 pub mod c13;
 pub mod c15;
 pub mod c18;
@@ -22,6 +23,7 @@ pub struct CheckDef {
 
 pub fn registry() -> Vec<CheckDef> {
     vec![
+        c06::def(),
         c13::def(),
         c15::def(),
         c18::def(),
